@@ -80,6 +80,30 @@ def run(ctx, prefix):
         scripts.append([dict(op="set", addr="/fx_on", ty="T"), dict(op="set", addr="/fx/type", ty="i", v=1), dict(op="set", addr="/fx/level", ty="i", v=77), dict(op="set", addr="/pi", ty="i", v=9), dict(op="saveload", seed=5)])
         for what, text in BAD_FILES:
             scripts.append([dict(op="loadraw", text=text, what=what)])
+        # loading through a dispatcher with hooks (discard / abort / rename / change an argument), on a sample of the scripts above
+        nh = 0
+        for k, sc in enumerate(list(scripts)):
+            if k % (4 if thorough else 23) or not sc or sc[-1].get("op") != "saveload":
+                continue
+            touched = [o["addr"] for o in sc if o.get("op") == "set"]
+            if not touched:
+                continue
+            hook = dict(op="savehook", discard=[], abort="", ren_from="", ren_to="", inc_addr="", inc_by=0)
+            mode = nh % 5
+            nh += 1
+            if mode == 0:
+                hook["discard"] = [rng.choice(touched)] + (["/ai", "/al"] if nh % 2 else ["/sub/sa"])
+            elif mode == 1:
+                hook["abort"] = rng.choice(touched)
+            elif mode == 2 and "/pn" not in touched:
+                hook["ren_from"], hook["ren_to"] = "/pi", "/pn"
+            elif mode == 3:
+                hook["inc_addr"], hook["inc_by"] = "/pi", rng.choice([3, -7, 2000])
+            else:
+                hook["discard"] = [a for a in touched if a.startswith(("/fx", "/sub", "/psub"))][:2]
+                hook["inc_addr"], hook["inc_by"] = "/dep", 1
+            scripts.append(sc[:-1] + ([dict(op="set", addr="/pi", ty="i", v=40)] if mode in (2, 3) else []) + [hook])
+        ctx.notes["scripts_loaded_through_hooks"] = nh
         # C14 at the resolution of float bit patterns: every sequence of FloatPort.tla (neighbouring floats, denormals, each port's bound and its neighbours)
         fseq, rf = ctx.vectors("FloatPort", "FloatPort_3.cfg" if thorough else "FloatPort_2.cfg", "fseq")
         ctx.bounds["float_pattern_sequences"] = len(fseq)
@@ -116,6 +140,8 @@ def run(ctx, prefix):
                         extra = " saved lines %s; load outcomes %s" % ([ln["text"] for ln in e["lines"]], [(o["count"], o["res"]["ret"]) for o in e["outcomes"]][:4])
                     elif e["op"] in ("set", "get"):
                         extra = " events %s" % [(x["kind"], x["addr"], x["tags"], [(a["t"], a["n"]) for a in x["args"]]) for x in e["events"]]
+                    elif e["op"] == "savehook":
+                        extra = " saved lines %s; hook %s; load_from_file returned %s after %s hook call(s)" % ([ln["text"] for ln in e["lines"]], e["hook"], e["ret"], e["hook_calls"])
                     elif e["op"] == "floatseq":
                         extra = " float patterns %s sent to %s: stored %s, undo events %s" % (e["ins"], e["addr"], [x["stored"] for x in e["steps"]], [x["undo"] for x in e["steps"]])
                     elif e["op"] == "loadraw":
